@@ -44,7 +44,7 @@ STORE_NOTE = "Single-threaded step driving through the rescrv_blue_verif hooks (
 CHECKS["C01"] = dict(
     engine="store-driver",
     category="exploration",
-    text="Model-based generated-history search: thousands of generated histories per quick run over both store surfaces and generated option settings drive the real store through flushes, trivial moves, merges, GCs, verifier passes and reopen (all 16 levels get occupied), and every universe key is read back against a sequential map model after every checked operation. Histories x configurations is unbounded, so generated exploration with measured shape coverage is the right level; it cannot show absence. Also: LsmTree::get cross-checked with load; reads in the middle of a memtable flush (guard-only yield points: data only in the immutable memtable / in immutable memtable and new sst); the same directory switched between the KeyValueStore and LsmTree surfaces inside a history.",
+    text="Model-based generated-history search: thousands of generated histories per quick run over both store surfaces and generated option settings drive the real store through flushes, trivial moves, merges, GCs, verifier passes and reopen (all 16 levels get occupied), and every universe key is read back against a sequential map model after every checked operation. Histories x configurations is unbounded, so generated exploration with measured shape coverage is the right level; it cannot show absence. Also: LsmTree::get cross-checked with load; reads in the middle of a memtable flush (guard-only yield points: data only in the immutable memtable / in immutable memtable and new sst); the same directory switched between the KeyValueStore and LsmTree surfaces inside a history. Keys of the documented maximum length (16 KiB) and 32 KiB values are part of the key / value generators; external ssts may give a never-written key an old timestamp (nested timestamp ranges in level 0); a put may be issued and acknowledged in the middle of a flush, right after the memtable switch.",
     design_ref="DESIGN.md §5 C01",
     note=STORE_NOTE,
     technique="stateful property-based testing (proptest op sequences + interpreter) against a sequential map model",
@@ -77,7 +77,7 @@ CHECKS["C07"] = dict(
 CHECKS["C08"] = dict(
     engine="store-driver",
     category="exploration",
-    text="Generated histories with many verifier passes, reopens (orphan clean-up) and cursors held across retirements; after every operation every sst named by the live tree and by an independent parse of the manifest must exist in sst/, a verifier pass must not change sst/ nor remove the live MANIFEST, and the full read-back must still equal the model. A verifier pass may unlink only trash ssts whose removal is recorded in a manifest fragment it processed in that pass. Every recovered image of the crash part gets follow-up writes, flushes, compaction and another reopen; the crash part kills the process at the calls of verifier passes, reopens and trash handling, and at every call from a move into trash (a flushed log, a compacted sst) to the end of the API call that made it, and at the manifest's own calls; on every crash / error image, before recovery, every sst named by the complete transactions of the live MANIFEST must be present in sst/.",
+    text="Generated histories with many verifier passes, reopens (orphan clean-up) and cursors held across retirements; after every operation every sst named by the live tree and by an independent parse of the manifest must exist in sst/, a verifier pass must not change sst/ nor remove the live MANIFEST, and the full read-back must still equal the model. A verifier pass may unlink only trash ssts whose removal is recorded in a manifest fragment it processed in that pass. Every recovered image of the crash part gets follow-up writes, flushes, compaction and another reopen; the crash part kills the process at the calls of verifier passes, reopens and trash handling, and at every call from a move into trash (a flushed log, a compacted sst) to the end of the API call that made it, and at the manifest's own calls; on every crash / error image, before recovery, every sst named by the complete transactions of the live MANIFEST must be present in sst/. Part threaded-files runs several ingesting threads against 1-3 compaction threads and judges the files at quiescence: every sst the committed manifest lists is in sst/ and the directory opens again.",
     design_ref="DESIGN.md §5 C08",
     note=STORE_NOTE + " Crash points inside verifier passes and trash moves are explored by the C02 fault enumerator.",
     technique="stateful property-based testing with a file-presence invariant and model read-back",
@@ -85,7 +85,7 @@ CHECKS["C08"] = dict(
 CHECKS["C20"] = dict(
     engine="store-driver",
     category="exploration",
-    text="Safety form of the liveness property over generated states: with small stall / mandatory thresholds and tight compaction limits, whenever the store reports that ingest must stall, compaction steps must lower level 0 below the threshold before the selector goes idle (an idle selector while stalled with nothing in progress is the violation; the step bound is NUM_LEVELS x (live files + 1) + 16 because trivial moves are preferred). 'Eventually' itself is out of reach of this technique.",
+    text="Safety form of the liveness property over generated states: with small stall / mandatory thresholds and tight compaction limits, whenever the store reports that ingest must stall, compaction steps must lower level 0 below the threshold before the selector goes idle (an idle selector while stalled with nothing in progress is the violation; the step bound is NUM_LEVELS x (live files + 1) + 16 because trivial moves are preferred). 'Eventually' itself is out of reach of this technique. Tree-surface ingests of the step driver run on a helper thread: an ingest that parks on the write stall although the store reports no stall, with the selector idle, is a writer that waits for ever.",
     design_ref="DESIGN.md §5 C20",
     note="Single-threaded step driving; thread-level lost wake-ups are not decided here.",
     technique="stateful property-based testing with a bounded-relief invariant over generated configurations",
@@ -103,7 +103,7 @@ CHECKS["C18"] = dict(
 CHECKS["C02"] = dict(
     engine="sysshim",
     category="fault_enumeration",
-    text="Fault enumeration over generated histories: an in-binary libc shim numbers every file-system mutating call the store issues; each history is re-executed in a child process and killed before call k (every k in the thorough tier and for short histories, a class-stratified sample otherwise) under persistence models (a), (b) lose-all and (b) torn, and with call k failing with EIO / ENOSPC; a fresh process reopens the image and its contents (point reads and full scan, before and after a verifier pass and another reopen) must equal the model after the acknowledged ops, optionally plus the one in-flight op. The space of crash points of one history is enumerated exhaustively in the thorough tier; histories and configurations are sampled. Fault modes are drawn independently of the call index (all modes at every point in the thorough tier); a fault inside an operation that still reports success kills the process right after that operation (a swallowed error cannot be masked by a later sync); go-on modes: the error is reported, the history continues and the process dies at its end - per key the recovered value must be that of the last acknowledged write or of a later failed one; every recovered image gets follow-up writes, flushes, compaction steps and another reopen (life after recovery).",
+    text="Fault enumeration over generated histories: an in-binary libc shim numbers every file-system mutating call the store issues; each history is re-executed in a child process and killed before call k (every k in the thorough tier and for short histories, a class-stratified sample otherwise) under persistence models (a), (b) lose-all and (b) torn, and with call k failing with EIO / ENOSPC; a fresh process reopens the image and its contents (point reads and full scan, before and after a verifier pass and another reopen) must equal the model after the acknowledged ops, optionally plus the one in-flight op. The space of crash points of one history is enumerated exhaustively in the thorough tier; histories and configurations are sampled. Fault modes are drawn independently of the call index (all modes at every point in the thorough tier); a fault inside an operation that still reports success kills the process right after that operation (a swallowed error cannot be masked by a later sync); go-on modes: the error is reported, the history continues and the process dies at its end - per key the recovered value must be that of the last acknowledged write or of a later failed one; every recovered image gets follow-up writes, flushes, compaction steps and another reopen (life after recovery). Further fault modes: the history goes on after a reported EIO / ENOSPC / short write (what was acknowledged before or after the error must survive the final power loss), a short write that is not followed by any error, and a second crash in the middle of the recovery. Histories contain puts issued in the middle of a flush (two write-ahead logs with unflushed data at the crash).",
     design_ref="DESIGN.md §5 C02",
     note="Directory-entry durability is not modelled (neither persistence model of the property loses directory operations). The shim relies on std and sst calling libc through the PLT (verified: counts and traces are produced). Recovered images satisfying the R-D predicate are excluded and counted.",
     technique="fault injection / crash-point enumeration over property-based generated histories, with a sequential model oracle",
@@ -136,7 +136,7 @@ CHECKS["C15"] = dict(
 CHECKS["C04"] = dict(
     engine="store-driver",
     category="exploration",
-    text="Accept half: after every operation of generated histories (rollover ratios 1, 2, 8) an independent parser re-checks every manifest fragment: input == previous output, input == output + discard, discard == sum(removed) - sum(added), fragments chain through their roll-ups, final output == sum of listed digests, and each listed sst's name, stored setsum and setsum recomputed from a full walk agree; every verifier pass must accept or back off. Reject half: one hex digit of one recorded digest (+, -, I, O, D of a transaction, or the O of the roll-up that heads a fragment) is altered with the line CRC fixed up; ManifestVerifier must reject the fragment and, when the offline verifier processes that fragment on the genuine history, LsmVerifier must reject the tampered copy; and a GC output from which one policy-required entry was removed, with the whole later history re-balanced so that all equations still hold, must be rejected by the verifier's GC replay. Content-level reject half: for a generated history one output of one compaction (merge or GC) gets a policy-required entry dropped (also the whole output), a value modified or an entry duplicated into an extra output file, and the whole recorded history is re-balanced so that every setsum equation still holds; the verifier must reject.",
+    text="Accept half: after every operation of generated histories (rollover ratios 1, 2, 8) an independent parser re-checks every manifest fragment: input == previous output, input == output + discard, discard == sum(removed) - sum(added), fragments chain through their roll-ups, final output == sum of listed digests, and each listed sst's name, stored setsum and setsum recomputed from a full walk agree; every verifier pass must accept or back off. Reject half: one hex digit of one recorded digest (+, -, I, O, D of a transaction, or the O of the roll-up that heads a fragment) is altered with the line CRC fixed up; ManifestVerifier must reject the fragment and, when the offline verifier processes that fragment on the genuine history, LsmVerifier must reject the tampered copy; and a GC output from which one policy-required entry was removed, with the whole later history re-balanced so that all equations still hold, must be rejected by the verifier's GC replay. Content-level reject half: for a generated history one output of one compaction (merge or GC) gets a policy-required entry dropped (also the whole output), a value modified or an entry duplicated into an extra output file, and the whole recorded history is re-balanced so that every setsum equation still holds; the verifier must reject. Half of the generated policies that are not versions = N (expiry leaves, any / all nesting) are kept in the content-level tampers.",
     design_ref="DESIGN.md §5 C04",
     note=STORE_NOTE + "",
     technique="stateful property-based testing with an independent balance checker (accept) and re-balanced single-entry / single-digit tampering (reject)",
